@@ -959,7 +959,7 @@ def run(tier, seed, replay=None):
         partial=True,
         level_note="TESTING, not proof, for the unmodelled readers: snapshot-diff over documents x introspected entry points; only the paragraph reads of WS.v and the table exporters' effect on the live table are theorems (C15.v)",
         proved=["C15_read_pure / C15_deterministic / C15_reads_in_any_order on the paragraph read machine (inner_text, consumer, length)",
-                "C15_md_fixed_pure, C15_rst_pure (exporters work on a clone); C15_md_refuted for the pinned Markdown export (F20)"],
+                "C15_md_fixed_pure, C15_rst_pure (exporters work on a clone); C15_md_refuted for the pinned Markdown export (F20); C15_md_pinned_repeatable_small (exhaustive sweep over 87 161 small tables)"],
         not_proved=["all other read-only entry points of Document, Body, Element subclasses, Table, Row, Cell, Meta, Styles/Content/Manifest parts and the export mixins: exercised, not proved",
                     "the table getters of C01/C08 with their caches (another builder's libraries) are exercised here as black boxes"],
         evaluations=calls + len(cases), distinct_nontrivial=len(distinct),
